@@ -474,7 +474,7 @@ def gen_U(rng, nmax):
         return {"__cls__": "MovingWindow", "params": {"change_score": {"__cls__": "L2Cost", "params": {"param": None}} if rng.random() < 0.6 else None, "bandwidth": int(rng.integers(2, 4)), "threshold_scale": [None, 0.3, 1.0][int(rng.integers(3))], "level": 0.2, "min_detection_interval": 1}}
     if k == 2:
         return {"__cls__": "SeededBinarySegmentation", "params": {"change_score": None, "threshold_scale": float(rng.choice([0.3, 1.0])), "level": 1e-8, "min_segment_length": int(rng.integers(1, 3)), "max_interval_length": 16, "growth_factor": 1.5}}
-    m = int(rng.integers(0, 7))
+    m = int(rng.integers(0, 7)) if nmax <= 40 else int(rng.integers(0, 45))
     cp = sorted(set(int(v) for v in rng.integers(1, nmax, size=m)))
     if cp and rng.random() < 0.4:
         cp = sorted(set(cp + [cp[0] + 1]))  # adjacent changepoints -> length-1 segments
@@ -503,10 +503,15 @@ def gen_world(rng, tier):
     ik = [("range", 0), ("range", 0), ("range", int(rng.integers(1, 40))), ("dt", 0)][int(rng.integers(4))]
     col = ["a", 0, "x1"][int(rng.integers(3))]
     nmax = 40
+    if rng.random() < (0.1 if tier == "thorough" else 0.06):
+        # long series, many segments: code paths that switch on beyond a size
+        nmax = int(rng.choice([130, 320]))
+        cfg["nsteps"] = min(cfg["nsteps"], 14)
+    cfg["nmax"] = nmax
     datasets = []
-    n0 = int(rng.integers(4, nmax + 1))
+    n0 = int(rng.integers(4, nmax + 1)) if nmax <= 40 else int(rng.integers(nmax // 2, nmax + 1))
     for did in range(int(rng.integers(2, 5))):
-        n = n0 if rng.random() < 0.5 else int(rng.integers(4, nmax + 1))
+        n = n0 if rng.random() < 0.5 else int(rng.integers(4 if nmax <= 40 else 70, nmax + 1))
         x = gen_x(rng, n, intdata)
         datasets.append({"id": did, "family": 0, "container": container, "dtype": "float64", "index": {"kind": ik[0], "start": ik[1]}, "columns": [col], "values": [[float(v)] for v in x]})
     if "bad_data" in cfg["faults"]:
